@@ -13,10 +13,10 @@ from props import c02
 
 LEVEL = "model_checking"
 WHICH = "C06"
-CFGS = ["compact", "pretty:default:semi", "pretty:default:nosemi", "pretty:tab:semi", "pretty:tab:nosemi", "pretty:0:semi", "pretty:4:nosemi", "pretty:8:semi"]
+CFGS = ["compact", "pretty:default:semi", "pretty:default:nosemi", "pretty:tab:semi", "pretty:tab:nosemi", "pretty:0:semi", "pretty:0:nosemi", "pretty:4:nosemi", "pretty:8:semi"]
 TRACED = ["compact", "pretty:default:semi", "pretty:tab:nosemi"]
 MODEL = ["compact", "pretty:default:semi", "pretty:tab:nosemi"]
-TEXTS = [" x", "x", " a = 1;", ' "q', " // y", "/", " }", " t  "]
+TEXTS = [" x", "x", " a = 1;", ' "q', " // y", "/", " }", " t  ", " wrap `x", " caf\xc3\xa9 \xe2\x86\x92 \xe4\xb8\xad"]
 
 
 def wcfg(name):
@@ -198,7 +198,18 @@ def build_items(ctx, quick):
     dec = [i for i in items if i["decorated"]]
     ctx.rng.shuffle(dec)
     cap = 5000 if quick else 60000
-    return und + fixture_items() + dec[:cap], len(und), len(dec)
+    from props import scale
+    big = []
+    few = ("nest_blk", "nest_if", "nest_fn", "nest_fnexpr", "nest_call", "nest_obj", "rep_call1", "rep_if_else", "rep_let_fn", "long_str", "many_names")
+    for s in scale.items(ctx, quick, max_nest=17 if quick else 40, max_n=17 if quick else 260):
+        if quick and s["fam"] not in few:
+            continue
+        big.append(dict(id=s["id"], text=s["text"], plain=None, mouts=None, decorated=True))
+        if "\n" in s["text"] and s["fam"].startswith("rep_"):      # a comment and a blank line in front of every line
+            lines = s["text"].split("\n")
+            txt = "\n".join("// c%d\n\n%s" % (k, ln) if ln.strip() else ln for k, ln in enumerate(lines))
+            big.append(dict(id=s["id"] + ":trivia", text=txt, plain=s["text"], mouts=None, decorated=True))
+    return und + fixture_items() + big + dec[:cap], len(und), len(dec)
 
 
 def run(ctx, which=None):
